@@ -34,7 +34,10 @@ type Taint struct {
 	SkipArg func(f *ssa.Function, call ssa.CallInstruction, arg ssa.Value) bool
 
 	params  map[*ssa.Function]map[int]bool
-	rets    map[*ssa.Function]map[int]bool
+	rets    map[*ssa.Function]map[int]bool         // result labelled whatever the arguments are (sources, fields, roots inside)
+	via     map[*ssa.Function]map[int]map[int]bool // result ri labelled when parameter i is: the call result is judged per call site
+	mask    map[*ssa.Parameter]bool                // when non-nil: hypothetical labelling of maskFn's parameters
+	maskFn  *ssa.Function
 	fields  map[string]bool
 	roots   map[*ssa.Function]map[ssa.Value]bool
 	fvs     map[*ssa.Function]map[int]bool
@@ -55,6 +58,7 @@ func (t *Taint) note(key, why string) {
 func (t *Taint) init() {
 	t.params = map[*ssa.Function]map[int]bool{}
 	t.rets = map[*ssa.Function]map[int]bool{}
+	t.via = map[*ssa.Function]map[int]map[int]bool{}
 	t.fields = map[string]bool{}
 	t.roots = map[*ssa.Function]map[ssa.Value]bool{}
 	t.fvs = map[*ssa.Function]map[int]bool{}
@@ -136,6 +140,9 @@ func (t *Taint) Tainted(f *ssa.Function, v ssa.Value) bool {
 			return false
 		case *ssa.Parameter:
 			pf := y.Parent()
+			if t.mask != nil && pf == t.maskFn {
+				return t.mask[y]
+			}
 			for i, p := range pf.Params {
 				if p == y && t.params[pf][i] {
 					return true
@@ -164,7 +171,7 @@ func (t *Taint) Tainted(f *ssa.Function, v ssa.Value) bool {
 					return rec(c.Common().Args[0], d+1)
 				}
 				for _, g := range t.P.CalleesOf(c) {
-					if t.rets[g][y.Index] {
+					if t.retLabelled(g, y.Index, c.Common(), func(a ssa.Value) bool { return rec(a, d+1) }) {
 						return true
 					}
 				}
@@ -281,7 +288,7 @@ func (t *Taint) Tainted(f *ssa.Function, v ssa.Value) bool {
 			// module callee returning a labelled value (single result)
 			if _, isTuple := y.Type().(*types.Tuple); !isTuple {
 				for _, g := range t.P.CalleesOf(y) {
-					if t.rets[g][0] {
+					if t.retLabelled(g, 0, c, func(a ssa.Value) bool { return rec(a, d+1) }) {
 						return true
 					}
 				}
@@ -290,6 +297,39 @@ func (t *Taint) Tainted(f *ssa.Function, v ssa.Value) bool {
 		return false
 	}
 	return rec(v, 0)
+}
+
+// retLabelled: does result ri of callee g carry the label at this call site?
+// Unconditionally labelled results do; results that merely pass a parameter on
+// (accessors, finders, converters) do when the corresponding actual argument does.
+func (t *Taint) retLabelled(g *ssa.Function, ri int, c *ssa.CallCommon, arg func(ssa.Value) bool) bool {
+	if t.rets[g][ri] {
+		return true
+	}
+	for i := range t.via[g][ri] {
+		var a ssa.Value
+		if c.IsInvoke() {
+			if i == 0 {
+				a = c.Value
+			} else if i-1 < len(c.Args) {
+				a = c.Args[i-1]
+			}
+		} else if i < len(c.Args) {
+			a = c.Args[i]
+		}
+		if a != nil && arg(a) {
+			return true
+		}
+	}
+	return false
+}
+
+// taintedUnder evaluates Tainted(f, v) under a hypothetical labelling of f's own parameters.
+func (t *Taint) taintedUnder(f *ssa.Function, v ssa.Value, m map[*ssa.Parameter]bool) bool {
+	om, of := t.mask, t.maskFn
+	t.mask, t.maskFn = m, f
+	defer func() { t.mask, t.maskFn = om, of }()
+	return t.Tainted(f, v)
 }
 
 // Run propagates to a fixpoint over the given functions.
@@ -379,13 +419,54 @@ func (t *Taint) step(f *ssa.Function) {
 				}
 			case *ssa.Return:
 				for ri, res := range x.Results {
-					if isNillable(res.Type()) && !isErrorType(res.Type()) && !t.rets[f][ri] && t.Tainted(f, RetVal(x, ri)) {
+					if !isNillable(res.Type()) || isErrorType(res.Type()) || t.rets[f][ri] {
+						continue
+					}
+					rv := RetVal(x, ri)
+					if !t.Tainted(f, rv) {
+						continue
+					}
+					// labelled with the parameters as they are: is it so whatever the arguments, or
+					// only because a (somewhere) labelled parameter is passed through?
+					if t.taintedUnder(f, rv, map[*ssa.Parameter]bool{}) {
 						if t.rets[f] == nil {
 							t.rets[f] = map[int]bool{}
 						}
 						t.rets[f][ri] = true
 						t.changed = true
 						t.note("ret "+Short(FuncKey(f))+"#"+itoa(ri), Expr(res))
+						continue
+					}
+					explained := false
+					for i := range t.via[f][ri] {
+						if t.params[f][i] {
+							explained = true
+						}
+					}
+					for i, prm := range f.Params {
+						if !t.params[f][i] || t.via[f][ri][i] {
+							continue
+						}
+						if t.taintedUnder(f, rv, map[*ssa.Parameter]bool{prm: true}) {
+							explained = true
+							if t.via[f] == nil {
+								t.via[f] = map[int]map[int]bool{}
+							}
+							if t.via[f][ri] == nil {
+								t.via[f][ri] = map[int]bool{}
+							}
+							t.via[f][ri][i] = true
+							t.changed = true
+							t.note("ret "+Short(FuncKey(f))+"#"+itoa(ri), "passes parameter "+itoa(i)+": "+Expr(res))
+						}
+					}
+					if !explained {
+						// labelled, but by no single parameter (captured variables, several parameters together): stay conservative
+						if t.rets[f] == nil {
+							t.rets[f] = map[int]bool{}
+						}
+						t.rets[f][ri] = true
+						t.changed = true
 					}
 				}
 			case ssa.CallInstruction:
